@@ -551,6 +551,13 @@ def mon_C10(case, obs):
             out.append(('C10:slot-released-for-resolved-job',
                         'a result for the already resolved job %d released a slot (%d -> %d) at event %d'
                         % (e[1], obs[n - 1]['sem'][0], v, n)))
+        if e[0] == 'tick' and n and not o['exc'] and o['state'] == 0 and obs[n - 1]['state'] == 0:
+            gone = {w[0] for w in obs[n - 1]['workers']} - {w[0] for w in o['workers']}
+            want = min(b, obs[n - 1]['sem'][0] + len(gone))
+            if v < want:
+                out.append(('C10:slot-not-given-back-for-reaped-worker',
+                            'the supervision pass at event %d reaped %d worker(s) %s but the semaphore went from %d to %d (bound %d)'
+                            % (n, len(gone), sorted(gone), obs[n - 1]['sem'][0], v, b)))
         if v < 0 or v > b:
             out.append(('C10:semaphore-out-of-bounds', 'value %d bound %d after event %d %s' % (v, b, n, e)))
         if b != o['nprocs']:
@@ -873,7 +880,7 @@ def mon_C01_unresolved(case, obs):
 
 SWEEPS = dict(C01=lambda: sweep_loss()[::3] + sweep_limits()[::3] + sweep_terminate_job(), C04=lambda: sweep_loss() + sweep_terminate_job() + sweep_shutdown_loss(), C05=sweep_limits, C06=sweep_limits,
               C07=lambda: sweep_close_in_pass() + sweep_shutdown_loss(),
-              C08=lambda: sweep_loss()[::6] + sweep_terminate_job()[::2], C09=lambda: sweep_loss()[::6] + sweep_resize() + sweep_close_in_pass()[::2],
+              C08=lambda: sweep_loss()[::6] + sweep_terminate_job()[::2] + sweep_close_in_pass()[::3], C09=lambda: sweep_loss()[::6] + sweep_resize() + sweep_close_in_pass()[::2],
               C10=sweep_resize)
 
 
@@ -1161,7 +1168,12 @@ MONITORS['C01'].append(mon_C01_unresolved)
 MONITORS['C01'].append(mon_C01_feed)
 MONITORS['C07'] = [mon_known_C07, mon_C01, mon_C07_closed, mon_C07_credit, mon_C07_started_after_close]
 MONITORS['C09'].append(mon_C07_started_after_close)
-MONITORS['C08'] = [mon_C01]
+def mon_C08_started_after_shutdown(case, obs):
+    """a worker started once the pool has left the RUN state is never signalled by terminate()"""
+    return [('C08:worker-started-after-shutdown-began', w) for s_, w in mon_C07_started_after_close(case, obs)]
+
+
+MONITORS['C08'] = [mon_C01, mon_C08_started_after_shutdown]
 
 
 def mon_C02_length(case, obs):
